@@ -24,6 +24,8 @@ func checkC10(w *World, r *Report) {
 	c10ZeroDisables(w, r, ci)
 	c10IssuedTokens(w, r, ci)
 	c10HTTPCache(w, r, ci)
+	c10NoWriteBack(w, r, ci)
+	c10OverridePresence(w, r)
 }
 
 // cacheCalls lists calls of cache.Cache.<name> in non-mock module functions outside internal/cache.
@@ -807,5 +809,148 @@ func c10HTTPCache(w *World, r *Report, ci *types.Named) {
 			}
 		}
 		r.Ob(ri, key+"|no-freshness-needs-default", c.Pos(), ok3 && n > 0, "a response without freshness information may be stored only if DefaultCacheTTL != 0")
+	}
+}
+
+// ---- C10.8: a value read from the cache is never stored again ------------------------------------------
+
+// cacheDerived reports whether v depends on the result of a Cache.Get, looking through module callees'
+// results (depth 2) and through parameters at the call sites of the enclosing function (depth 2).
+func cacheDerived(w *World, ci *types.Named, v ssa.Value, depth int) (bool, string) {
+	found, why := false, ""
+	fnOf := func(x ssa.Value) *ssa.Function {
+		if in, ok := x.(ssa.Instruction); ok {
+			return in.Parent()
+		}
+		if p, ok := x.(*ssa.Parameter); ok {
+			return p.Parent()
+		}
+		return nil
+	}
+	dependsOn(w, v, func(x ssa.Value) bool {
+		if found {
+			return true
+		}
+		if c, idx := resultOfCall(x); c != nil && idx == 0 {
+			if invokeOf(c.Common(), ci, "Get") {
+				found, why = true, "result of Cache.Get at "+w.Pos(c.Pos())
+				return true
+			}
+			if callee := c.Common().StaticCallee(); callee != nil && callee.Blocks != nil && w.inModule(callee) && depth < 2 {
+				for _, ret := range returnsOf(callee) {
+					if len(ret.Results) == 0 {
+						continue
+					}
+					if d, wy := cacheDerived(w, ci, ret.Results[0], depth+1); d {
+						found, why = true, "result of "+callee.Name()+" <- "+wy
+						return true
+					}
+				}
+			}
+		}
+		if p, ok := x.(*ssa.Parameter); ok && depth < 2 {
+			fn := fnOf(p)
+			idx := -1
+			for i, q := range fn.Params {
+				if q == p {
+					idx = i
+				}
+			}
+			for _, e := range w.CG().In[fn] {
+				cinst, isCI := e.Site.(ssa.CallInstruction)
+				if !isCI || e.Kind != "static" || idx >= len(cinst.Common().Args) {
+					continue
+				}
+				if d, wy := cacheDerived(w, ci, cinst.Common().Args[idx], depth+1); d {
+					found, why = true, "argument at "+w.Pos(cinst.Pos())+" <- "+wy
+					return true
+				}
+			}
+		}
+		return false
+	})
+	return found, why
+}
+
+func c10NoWriteBack(w *World, r *Report, ci *types.Named) {
+	ri := r.Rule("C10.8", 8, "a value served from the cache is never stored again (that would extend its lifetime beyond its validity)")
+	nth := map[string]int{}
+	for _, c := range cacheCalls(w, ci, "Set") {
+		fn := c.Parent()
+		nth[w.FnName(fn)]++
+		d, why := cacheDerived(w, ci, c.Common().Args[2], 0)
+		r.Ob(ri, fmt.Sprintf("%s|Set#%d|value-not-from-cache", w.FnName(fn), nth[w.FnName(fn)]), c.Pos(), !d, "the stored value can be a value that was read from the cache ("+why+"): every hit would renew its lifetime")
+	}
+}
+
+// ---- C10.4b: a rule-level cache_ttl of zero is an override, not "not given" -----------------------------
+
+func c10OverridePresence(w *World, r *Report) {
+	ri := r.Rule("C10.4b", 5, "a rule-level cache_ttl override is applied whenever it is given, including zero (which disables caching for that rule)")
+	fields := cacheTTLFields(w)
+	for _, fn := range w.Funcs {
+		if w.isMockFn(fn) || fn.Name() != "WithConfig" || fn.Signature.Recv() == nil {
+			continue
+		}
+		eachInstr(fn, func(in ssa.Instruction) {
+			st, ok := in.(*ssa.Store)
+			if !ok {
+				return
+			}
+			fa, ok := st.Addr.(*ssa.FieldAddr)
+			if !ok || !fields[fieldOf(fa.X.Type(), fa.Field)] {
+				return
+			}
+			// only stores whose value can be the decoded override
+			isOv := false
+			for _, o := range w.Origins(st.Val, nil) {
+				if decodedOption(o, "cache_ttl") {
+					isOv = true
+				}
+			}
+			if !isOv {
+				return
+			}
+			r.Analysed(w.FnName(fn))
+			ok2, msg := true, ""
+			// the selection between override and prototype value must be a presence test
+			var conds []ssa.Value
+			var walk func(v ssa.Value)
+			seen := map[ssa.Value]bool{}
+			walk = func(v ssa.Value) {
+				if seen[v] {
+					return
+				}
+				seen[v] = true
+				switch x := v.(type) {
+				case *ssa.Phi:
+					for _, e := range x.Edges {
+						walk(e)
+					}
+				case *ssa.Call:
+					if ops := selectOperands(x); ops != nil {
+						conds = append(conds, selectCond(x))
+						for _, o := range ops {
+							walk(o)
+						}
+					}
+				}
+			}
+			walk(st.Val)
+			for _, cnd := range conds {
+				for _, f := range condFacts(cnd, true) {
+					if f.Kind == FCmp && (isZeroConst(f.Y) || isZeroConst(f.X)) {
+						x := f.X
+						if isZeroConst(x) {
+							x = f.Y
+						}
+						if decodedOption(x, "cache_ttl") {
+							ok2, msg = false, "the override is selected by a value test ("+f.Op.String()+" 0) instead of a presence test: a rule-level cache_ttl of 0s is ignored and the prototype's TTL stays in force"
+						}
+					}
+				}
+			}
+			r.Ob(ri, w.FnName(fn)+"|ttl-override-presence", st.Pos(), ok2, msg)
+		})
 	}
 }
